@@ -82,3 +82,20 @@ Definition run_guard (inp : string * Z) : V :=
   let i := Nat.min (List.length pkt) mtu in
   let b := firstn mtu (pkt ++ repeat 0%N mtu) in
   Vresult VN (incoming_guard b i).
+
+(* The search suites (sdp, cand, rtp, media) are direct-oracle-only.  Each has
+   a few degenerate corpus cases whose whole step log is fixed (empty
+   description rejected, candidate before any remote description rejected, no
+   packets sent); the expected log is stated here per kind and compared like
+   any other observation, which also gives the driver the case file it
+   requires of every suite.
+   kind 0: empty SDP; 1: candidate without remote description;
+   2: media path set up, nothing sent; 3: empty RTP packet; 4: empty RTCP packet *)
+Definition run_fixed (kind : Z) : V :=
+  match kind with
+  | 0%Z => VS "srd:err start-receivers:ok drain:ok settle:ok close:ok"
+  | 1%Z => VS "cand:err drain:ok close:ok"
+  | 2%Z => VS "srd:ok answer:ok connect-media:ok start-receivers:ok drain:ok close:ok sent=0/0"
+  | 3%Z => VS "handleUnknownRTPPacket:err incoming-guard:err checkAndUpdateTrack:err close:ok"
+  | _ => VS "rtcp.Unmarshal:err"
+  end.
